@@ -91,19 +91,24 @@ def check_concat(case):
             row = {t: None for t in fields}
             row.update(vals)
             exp_cc.append(row)
-    kind, out = run_step(st, core.dataflows.concatenate(copy.deepcopy(fields), {'name': 'cc'}, resources=list(sel)))
+    # the target may re-use the name of one of the resources it replaces
+    tname = {'first': sel[0], 'last': sel[-1]}.get(case.get('target'), 'cc')
+    if tname != 'cc':
+        label += ' into a target named %r' % tname
+    kind, out = run_step(st, core.dataflows.concatenate(copy.deepcopy(fields), {'name': tname, 'path': tname + '.csv'} if tname != 'cc' else {'name': 'cc'},
+                                                        resources=list(sel)))
     if kind == 'exc':
         if empty:
             return [], 'rejected-empty-row', False
         return [('raises/concatenate', '%s raises %s: %s' % (label, core.exc_sig(out), str(out)[:100]))], 'violated', True
     if empty:
         return [('empty-row-accepted/concatenate', '%s: a row without any mapped non-null value was accepted' % label)], 'violated', True
-    exp_names = names[:lo] + ['cc'] + names[hi + 1:]
+    exp_names = names[:lo] + [tname] + names[hi + 1:]
     exp_rows = st.rows[:lo] + [exp_cc] + st.rows[hi + 1:]
     exp_fields = [None] * lo + [list(fields)] + [None] * (len(names) - hi - 1)
     v = compare(label, 'concatenate', out, exp_names, exp_rows, exp_fields)
     for i, n in enumerate(exp_names):
-        if n != 'cc' and not v and out.desc['resources'][i] != st.desc['resources'][names.index(n)]:
+        if i != lo and not v and out.desc['resources'][i] != st.desc['resources'][names.index(n)]:
             v.append(('descriptor/concatenate', '%s: descriptor of untouched %r changed' % (label, n)))
     return v, 'ok' if not v else 'violated', len(exp_cc) > 0
 
@@ -241,6 +246,12 @@ def check_append(case):
         ns = mkstate([('L1', [('n', 'integer'), ('m', 'string')], new_rows), ('L2', [('n', 'integer')], [])])
         step = core.dataflows.load((copy.deepcopy(ns.desc), [iter(copy.deepcopy(r)) for r in ns.rows]))
         newnames = ['L1', 'L2']
+    elif how in ('load-int0', 'load-int1'):
+        # an integer selector is an index into the package being LOADED, whatever the flow already holds
+        ns = mkstate([('L1', [('n', 'integer'), ('m', 'string')], new_rows), ('L2', [('n', 'integer')], [{'n': 5}])])
+        idx = int(how[-1])
+        step = core.dataflows.load((copy.deepcopy(ns.desc), [iter(copy.deepcopy(r)) for r in ns.rows]), resources=idx)
+        newnames = [['L1', 'L2'][idx]]
     elif how == 'load-live':
         # the (descriptor, resources) pair is another flow's live stream: its resources must be taken one at a time, in order
         # (that flow ends in a concatenate, whose sources are only taken from the stream while its target is being read)
@@ -269,7 +280,7 @@ def check_append(case):
                 v.append(('existing-changed/append-%s' % how, '%s: existing resource %r changed' % (label, names[i])))
                 break
         exp_new = {'iterable': [new_rows], 'generator': [new_rows], 'load': [new_rows, []], 'sources': [new_rows, [{'q': 1}]],
-                   'load-live': [new_rows, [{'n': 5}, {'n': 6}]]}[how]
+                   'load-live': [new_rows, [{'n': 5}, {'n': 6}]], 'load-int0': [new_rows], 'load-int1': [[{'n': 5}]]}[how]
         if len(got) - k != len(exp_new):
             v.append(('appended-count/append-%s' % how, '%s: %d resources appended, expected %d' % (label, len(got) - k, len(exp_new))))
         elif [enc_rows(r) for r in out.rows[k:]] != [enc_rows(r) for r in exp_new]:
@@ -316,6 +327,9 @@ def cases(tier):
                     for mp in ('merge', 'a-only', 'self+other'):
                         if n <= 3 or mp == 'merge':
                             out.append({'proc': 'concat', 'pkg': spec, 'lo': lo, 'hi': hi, 'mapping': mp})
+                        if n <= 2 and mp != 'a-only':
+                            for tg in ('first', 'last'):
+                                out.append({'proc': 'concat', 'pkg': spec, 'lo': lo, 'hi': hi, 'mapping': mp, 'target': tg})
             for idx in range(n):
                 for to_end in (False, True):
                     out.append({'proc': 'duplicate', 'pkg': spec, 'idx': idx, 'to_end': to_end, 'batch': 1000 if (idx + n) % 3 else 1 + (idx % 2)})
@@ -328,7 +342,7 @@ def cases(tier):
             for sel in sels:
                 out.append({'proc': 'delete', 'pkg': spec, 'sel': sel})
             if n <= 2 or tier == 'thorough':
-                for how in ('iterable', 'generator', 'load', 'sources', 'load-live'):
+                for how in ('iterable', 'generator', 'load', 'sources', 'load-live', 'load-int0', 'load-int1'):
                     out.append({'proc': 'append', 'pkg': spec, 'how': how})
                 for how in ('iterable', 'generator'):
                     out.append({'proc': 'append', 'pkg': spec, 'how': how, 'shifted': True})
